@@ -97,15 +97,27 @@ func makeSrc(cs *Case, c int, args, all []string) string {
 	return sb.String()
 }
 
-// stateSrc reads every slot name of the universe from instance i.
-func stateSrc(universe []string) string {
+// stateFn is the name of the per-case helper function
+//
+//	(defun slot-states (i) (list (if (slot-exists-p i 's0) (if (slot-boundp i 's0) (slot-value i 's0) 'unb) 'mis) ...))
+//
+// that reads every slot name of the universe from an instance. "$ST" is
+// replaced by a name unique to the case before evaluation.
+const stateFn = "$ST"
+
+func stateDefun(universe []string) string {
 	var sb strings.Builder
-	sb.WriteString("(list")
+	sb.WriteString("(defun " + stateFn + " (i) (list")
 	for _, n := range universe {
 		fmt.Fprintf(&sb, " (if (slot-exists-p i '%s) (if (slot-boundp i '%s) (slot-value i '%s) '%s) '%s)", n, n, n, unbound, missing)
 	}
-	sb.WriteByte(')')
+	sb.WriteString("))")
 	return sb.String()
+}
+
+// stateSrc reads every slot name of the universe from instance i.
+func stateSrc(universe []string) string {
+	return "(" + stateFn + " i)"
 }
 
 func stateSubs(universe []string, state map[string]string, ctx string) []sub {
@@ -117,8 +129,9 @@ func stateSubs(universe []string, state map[string]string, ctx string) []sub {
 }
 
 // argsets enumerates the subsets of the initargs valid for a class, each as a
-// call-order list: ascending for even masks, descending for odd ones, so that
-// "leftmost wins" and "order of the call does not matter" are both exercised.
+// call-order list: about half of the subsets are passed in ascending and half
+// in descending order of the initarg names, so that "leftmost wins" and "the
+// order of the call does not matter" are both exercised.
 func argsets(all []string, maxArgs int) [][]string {
 	if maxArgs < len(all) {
 		all = all[:maxArgs]
@@ -177,6 +190,8 @@ const (
 	featAwaits = "redefinition-awaits-superclass"
 	// :reader/:writer/:accessor options of define-condition slots
 	featCondAcc = "condition-slot-accessor"
+	// a condition class whose list has the base class condition before another class
+	featBaseMid = "condition-base-before-other-class"
 )
 
 func buildItems1(m *model, c *Case, final bool) []item {
@@ -189,7 +204,11 @@ func buildItems1(m *model, c *Case, final bool) []item {
 	}
 	for x := 0; x < n; x++ {
 		prec := m.prec(x)
-		items = append(items, item{kind: "precedence", class: x, src: fmt.Sprintf("(list (class-precedence '@c%d))", x),
+		var precFeats []string
+		if m.baseMidList(x) {
+			precFeats = []string{featBaseMid}
+		}
+		items = append(items, item{kind: "precedence", class: x, feats: precFeats, src: fmt.Sprintf("(list (class-precedence '@c%d))", x),
 			subs: []sub{{kind: "precedence", what: fmt.Sprintf("class-precedence of c%d", x), want: m.precNames(x)}}})
 		all := m.initargs(x)
 		sets := argsets(all, c.MaxArgs)
@@ -197,12 +216,11 @@ func buildItems1(m *model, c *Case, final bool) []item {
 		var base []string
 		var baseState map[string]string
 		var baseFeats []string
-		for si, as := range sets {
+		for _, as := range sets {
 			state, feats := m.instance(x, as, c.Universe, all)
 			if baseState == nil || (0 < len(baseFeats) && len(feats) == 0) {
 				base, baseState, baseFeats = as, state, feats
 			}
-			_ = si
 			ctx := fmt.Sprintf("c%d made with %v:", x, as)
 			items = append(items, item{kind: "init", class: x, feats: feats,
 				src:  "(let ((i " + makeSrc(c, x, as, all) + ")) " + stateSrc(c.Universe) + ")",
@@ -218,7 +236,7 @@ func buildItems1(m *model, c *Case, final bool) []item {
 				fmt.Fprintf(&sb, " (typep i '@c%d)", y)
 				subs = append(subs, sub{kind: "typep", what: fmt.Sprintf("(typep <c%d> 'c%d)", x, y), want: tf(m.inherits(x, y))})
 			}
-			top := strings.Fields(m.tail)[0]
+			top := m.base
 			sb.WriteString(" (typep i '" + top + ") (class-name (class-of i))")
 			subs = append(subs, sub{"typep", fmt.Sprintf("(typep <c%d> '%s)", x, top), "t"},
 				sub{"class-of", fmt.Sprintf("(class-name (class-of <c%d>))", x), "@c" + strconv.Itoa(x)})
@@ -419,7 +437,9 @@ func (rn *run) fail(sig, perm string, format string, a ...any) {
 // observed to be wrong, because which of several wrong outcomes shows up
 // there depends on Go map iteration order inside slip.
 func sigOf(obs, fail, when string, feats []string) string {
-	for _, f := range []string{featAwaits, "initform-nil", "shared-initarg", "two-initargs-one-slot", featIndirect, featCached, featCondAcc} {
+	// constructs exercised by the evaluation itself first, then those that
+	// concern the whole class
+	for _, f := range []string{"initform-nil", "shared-initarg", "two-initargs-one-slot", featCondAcc, featBaseMid, featCached, featAwaits, featIndirect} {
 		for _, have := range feats {
 			if have == f {
 				return "construct=" + f
@@ -452,6 +472,11 @@ func (rn *run) observe(scope *slip.Scope, prefix, perm string, items []item, whe
 		rn.evals++
 		when := whenOf(it.class)
 		shown := strings.ReplaceAll(it.src, "@", "")
+		if i := strings.Index(shown, "(slot-states-"); 0 <= i {
+			if j := strings.Index(shown[i:], " "); 0 < j {
+				shown = shown[:i] + "(slot-states" + shown[i+j:]
+			}
+		}
 		if it.wantErr {
 			switch {
 			case err == nil:
@@ -544,6 +569,17 @@ func exec(x *fw.Ctx, c Case) {
 	if c.Redef != nil {
 		items1 = buildItems(m1, &c, true)
 	}
+	uid++
+	stName := fmt.Sprintf("slot-states-%d", uid)
+	if _, err := sl.Eval(slip.NewScope(), strings.ReplaceAll(stateDefun(c.Universe), stateFn, stName)); err != nil {
+		x.Fail("harness-defun", "%s", err)
+		return
+	}
+	for _, its := range [][]item{items0, items1} {
+		for k := range its {
+			its[k].src = strings.ReplaceAll(its[k].src, stateFn, stName)
+		}
+	}
 	depth, shadow := shape(m0)
 	x.Cover(fmt.Sprintf("shape:classes=%d", n))
 	x.Cover(fmt.Sprintf("shape:depth=%d", depth))
@@ -613,8 +649,24 @@ func exec(x *fw.Ctx, c Case) {
 				} else {
 					got = strings.ReplaceAll(sl.Show(res), prefix, "@")
 				}
+				var pf []string
+				if cur.baseMidList(k) {
+					pf = []string{featBaseMid}
+				}
+				if c.Redef != nil && cur.gen[c.Redef.Class] == 1 && k != c.Redef.Class && m0.inherits(k, c.Redef.Class) {
+					// the listed findings about redefinition show at the intermediate steps too
+					if redefForward {
+						pf = append(pf, featAwaits)
+					}
+					for _, y := range m0.prec(k) {
+						if y != k && y != c.Redef.Class && m0.inherits(y, c.Redef.Class) {
+							pf = append(pf, featIndirect)
+							break
+						}
+					}
+				}
 				if got != cur.precNames(k) {
-					rn.fail(sigOf("precedence-partial", "wrong", when, nil), ps, "after defining %d of %d classes class-precedence of c%d is %s, expected %s",
+					rn.fail(sigOf("precedence-partial", "wrong", when, pf), ps, "after defining %d of %d classes class-precedence of c%d is %s, expected %s",
 						len(defined), n, k, strings.ReplaceAll(got, "@", ""), strings.ReplaceAll(cur.precNames(k), "@", ""))
 				} else {
 					x.Cover("held:precedence-partial")
@@ -765,17 +817,19 @@ func init() {
 	fw.Register(fw.Spec[Case]{
 		ID: "C12",
 		Rule: "case = a class DAG of 2..5 classes (random supers in written order, 2..4 slot names shared by all classes so that slots shadow over several levels, " +
-			"initargs, constant initforms, readers/writers/accessors), optionally one redefinition (after all classes or mid-sequence, possibly naming a not yet defined super) " +
-			"and probe generics specialised on a subset of the classes; every case is run once per definition order (all n! orders; quick samples 30 of 120 for half of the 5-class DAGs) " +
-			"under fresh class names, and after each order every class is observed: class-precedence, a fresh instance for every subset of its initargs (slot-exists-p/slot-boundp/slot-value of every slot name), " +
-			"typep/class-of/subtypep against every class, dispatch, every applicable reader/writer/accessor, non-applicable accessors; the first block is a fixed seed-independent list of shapes. " +
-			"distinct = distinct case JSON; every case is non-trivial (>= 2 classes, >= 2 orders). " +
-			"Avoided in ~85% of the cases (dirty stream keeps them): initarg shared by two slots, :initform nil, two initargs of one slot supplied together.",
+			"initargs, constant initforms, readers/writers/accessors; ~15% as condition classes through define-condition/make-condition), optionally one redefinition " +
+			"(after all classes or mid-sequence, possibly naming a not yet defined super) and two probe generics specialised on a subset of the classes; " +
+			"every case is run once per definition order (all n! orders; quick samples 30 of the 120 for half of the 5-class DAGs) under fresh class names, " +
+			"and after each order every class is observed: class-precedence (also after every intermediate defclass), a fresh instance for every subset of its initargs " +
+			"(slot-exists-p/slot-boundp/slot-value of every slot name), (setf slot-value), slot-makunbound, typep/class-of/subtypep against every class, dispatch, " +
+			"every applicable reader/writer/accessor, non-applicable accessors. The first 18 cases are a fixed seed-independent list of shapes (chains, diamond, redefinition of root/middle/apex, " +
+			"every construct with a listed finding). distinct = distinct case JSON; every case is non-trivial (>= 2 classes, >= 2 orders, >= 100 evaluations). " +
+			"Avoided in ~85% of the cases (dirty stream keeps them): initarg shared by two slots, :initform nil, a slot with two initargs (both supplied together), condition classes with accessors.",
 		N:        nCases,
 		Gen:      gen,
 		Exec:     exec,
 		Batch:    6,
-		HangSecs: 120,
+		HangSecs: 600,
 		Assumptions: []string{
 			"the model of the statement in model.go is the oracle: precedence = class, direct supers as written, then their lists in that order, first occurrence wins, then standard-object, t",
 			"defgeneric/defmethod/eq/list/let/if evaluate correctly (C01/C10)",
